@@ -143,3 +143,29 @@ func VerifTrackProcessorMPEGTSProcess(codec codecs.Codec, clockRate int, entries
 	}
 	return out, tp.process(context.Background(), nil)
 }
+
+// VerifHandleDataPace calls clientTrack.handleData on a track whose startRTC lies `elapsed` in the past, with a
+// context that is already cancelled, so the call returns at once whatever the pacing block decides:
+// "discard" (dropped before the pacing block), "now" (delivered without waiting), "sleep" (the pacing select was
+// entered: its cancellation arm fired), "toobig" (the DTS-RTC cap).
+func VerifHandleDataPace(clockRate int, pts int64, dts int64, elapsed time.Duration) string {
+	delivered := false
+	ct := &clientTrack{
+		track:    &Track{ClockRate: clockRate},
+		startRTC: time.Now().Add(-elapsed),
+	}
+	ct.onData = func(int64, int64, [][]byte) { delivered = true }
+	ctx, cancel := context.WithCancel(context.Background())
+	cancel()
+	err := ct.handleData(ctx, pts, dts, nil, nil)
+	switch {
+	case err == nil && delivered:
+		return "now"
+	case err == nil:
+		return "discard"
+	case err.Error() == "terminated":
+		return "sleep"
+	default:
+		return "toobig"
+	}
+}
